@@ -7,13 +7,20 @@ import (
 
 type tagIfchangedNode struct {
 	watchedExpr []IEvaluator
-	lastValues  []*Value
-	lastContent []byte
 	thenWrapper *NodeWrapper
 	elseWrapper *NodeWrapper
 }
 
+// tagIfchangedState is what the tag remembers during one rendering.
+type tagIfchangedState struct {
+	lastValues  []*Value
+	lastContent []byte
+}
+
 func (node *tagIfchangedNode) Execute(ctx *ExecutionContext, writer TemplateWriter) *Error {
+	// the remembered values belong to the current rendering, not to the compiled template
+	state := ctx.stateFor(node, func() any { return &tagIfchangedState{} }).(*tagIfchangedState)
+
 	if len(node.watchedExpr) == 0 {
 		// Check against own rendered body
 
@@ -24,10 +31,10 @@ func (node *tagIfchangedNode) Execute(ctx *ExecutionContext, writer TemplateWrit
 		}
 
 		bufBytes := buf.Bytes()
-		if !bytes.Equal(node.lastContent, bufBytes) {
+		if !bytes.Equal(state.lastContent, bufBytes) {
 			// Rendered content changed, output it
 			writer.Write(bufBytes)
-			node.lastContent = bufBytes
+			state.lastContent = bufBytes
 		}
 	} else {
 		nowValues := make([]*Value, 0, len(node.watchedExpr))
@@ -46,16 +53,16 @@ func (node *tagIfchangedNode) Execute(ctx *ExecutionContext, writer TemplateWrit
 		}
 
 		// Compare old to new values now
-		changed := len(node.lastValues) == 0
+		changed := len(state.lastValues) == 0
 
-		for idx, oldVal := range node.lastValues {
+		for idx, oldVal := range state.lastValues {
 			if !oldVal.EqualValueTo(nowValues[idx]) {
 				changed = true
 				break // we can stop here because ONE value changed
 			}
 		}
 
-		node.lastValues = nowValues
+		state.lastValues = nowValues
 
 		if changed {
 			// Render thenWrapper
